@@ -28,6 +28,11 @@ const tContend = "TestContention"
 //	                 → all succeed, descriptors pairwise distinct, every file holds exactly its data
 //	create-vs-atomic: half Create("d","a"), half AtomicCreate("d","a", data_i)
 //	                 → at most one Create succeeds; the file holds the data of one AtomicCreate
+//	link-vs-atomic:  goroutine 0 replaces "s" with AtomicCreate 20 times while the others
+//	                 Link("s" → fresh names) → every Link succeeds (source exists, target is new)
+//	read-vs-append:  goroutine 0 creates "f", appends 4 bytes and then 6 × 70000 bytes while the
+//	                 others Open it and ReadAt the whole file in a loop
+//	                 → every read returns the contents after a whole number of appends
 type ContendCase struct {
 	Impl   string `json:"impl"`
 	Mode   string `json:"mode"`
@@ -55,13 +60,14 @@ func runContend(c ContendCase) (msg string, inconcl string) {
 	for r := 0; r < c.Rounds; r++ {
 		dir := fmt.Sprintf("d%d", r)
 		fs.Mkdir(dir)
-		if c.Mode == "same-link" {
+		if c.Mode == "same-link" || c.Mode == "link-vs-atomic" {
 			fs.AtomicCreate(dir, "s", []byte("src"))
 		}
 		oks := make([]bool, c.K)
 		fds := make([]filesys.File, c.K)
 		panics := make([]string, c.K)
-		var ready int32
+		detail := make([]string, c.K)
+		var ready, created, writerDone int32
 		var wg sync.WaitGroup
 		for i := 0; i < c.K; i++ {
 			wg.Add(1)
@@ -79,6 +85,60 @@ func runContend(c ContendCase) (msg string, inconcl string) {
 					}
 				}
 				switch c.Mode {
+				case "link-vs-atomic":
+					if i == 0 {
+						for j := 0; j < 20; j++ {
+							fs.AtomicCreate(dir, "s", models.Pattern(j, 10))
+						}
+						atomic.StoreInt32(&writerDone, 1)
+						return
+					}
+					for j := 0; j < 400 && (j < 20 || atomic.LoadInt32(&writerDone) == 0); j++ {
+						if !fs.Link(dir, "s", dir, fmt.Sprintf("l%d_%d", i, j)) {
+							detail[i] = fmt.Sprintf("Link(%q,\"s\" → %q,\"l%d_%d\") returned false although the source exists throughout (it is only ever replaced by AtomicCreate) and the target name is new", dir, dir, i, j)
+							return
+						}
+					}
+				case "read-vs-append":
+					const big = 70000
+					if i == 0 {
+						f, ok := fs.Create(dir, "f")
+						if !ok {
+							detail[i] = "Create of a fresh name failed"
+							atomic.StoreInt32(&created, 1)
+							atomic.StoreInt32(&writerDone, 1)
+							return
+						}
+						fs.Append(f, models.Pattern(1, 4))
+						atomic.StoreInt32(&created, 1)
+						for j := 0; j < 6; j++ {
+							fs.Append(f, models.Pattern(10+j, big))
+							runtime.Gosched()
+						}
+						atomic.StoreInt32(&writerDone, 1)
+						fs.Close(f)
+						return
+					}
+					for atomic.LoadInt32(&created) == 0 {
+						runtime.Gosched()
+					}
+					full := models.Pattern(1, 4)
+					for j := 0; j < 6; j++ {
+						full = append(full, models.Pattern(10+j, big)...)
+					}
+					f := fs.Open(dir, "f")
+					for n := 0; n < 5000; n++ {
+						last := atomic.LoadInt32(&writerDone) == 1
+						got := fs.ReadAt(f, 0, uint64(len(full)+100))
+						if len(got) < 4 || (len(got)-4)%big != 0 || !bytes.Equal(got, full[:len(got)]) {
+							detail[i] = fmt.Sprintf("a ReadAt of the whole file concurrent with Append calls of %d bytes returned %d bytes; the file only ever holds 4 + k·%d bytes (k whole appends)", big, len(got), big)
+							break
+						}
+						if last {
+							break
+						}
+					}
+					fs.Close(f)
 				case "same-create":
 					fds[i], oks[i] = fs.Create(dir, "a")
 				case "same-link":
@@ -102,6 +162,11 @@ func runContend(c ContendCase) (msg string, inconcl string) {
 		for i, p := range panics {
 			if p != "" {
 				return fmt.Sprintf("round %d: goroutine %d panicked: %s", r, i, p), ""
+			}
+		}
+		for i, d := range detail {
+			if d != "" {
+				return fmt.Sprintf("round %d: goroutine %d: %s", r, i, d), ""
 			}
 		}
 		nok := 0
@@ -214,8 +279,24 @@ func TestContention(t *testing.T) {
 	rapid.Check(t, func(t *rapid.T) {
 		c := ContendCase{
 			Impl: rapid.SampledFrom([]string{"mem", "mem", "dir"}).Draw(t, "impl"),
-			Mode: rapid.SampledFrom([]string{"same-create", "same-link", "distinct-create", "create-vs-atomic"}).Draw(t, "mode"),
+			Mode: rapid.SampledFrom([]string{"same-create", "same-link", "distinct-create", "create-vs-atomic", "link-vs-atomic", "read-vs-append"}).Draw(t, "mode"),
 			K:    rapid.IntRange(2, 8).Draw(t, "k"),
+		}
+		if c.Mode == "link-vs-atomic" && c.Impl == "dir" && ev.SwitchOn(swK1) {
+			// known finding K1: DirFs.Link fails spuriously while its source name is being replaced
+			ev.Prune(swK1)
+			c.Mode = "same-link"
+		}
+		if c.Mode == "read-vs-append" {
+			if c.Impl == "dir" && ev.SwitchOn(swK2) {
+				// known finding K2: a DirFs.ReadAt concurrent with a multi-page Append sees part of it
+				ev.Prune(swK2)
+				c.Mode = "distinct-create"
+			} else if c.Impl == "mem" && ev.SwitchOn(swL2) {
+				// known finding L2: Open while the creator's descriptor is open
+				ev.Prune(swL2)
+				c.Mode = "distinct-create"
+			}
 		}
 		if c.Mode == "create-vs-atomic" && c.Impl == "dir" && ev.SwitchOn(swL3) && c.K > 3 {
 			// known finding L3: two concurrent DirFs.AtomicCreate calls of one name share the staging file
@@ -225,6 +306,12 @@ func TestContention(t *testing.T) {
 		c.Rounds = ev.EnvInt("VERIF_CONTEND_ROUNDS", 300)
 		if c.Impl == "dir" {
 			c.Rounds /= 10
+		}
+		switch c.Mode { // long rounds
+		case "link-vs-atomic":
+			c.Rounds = 2 * ev.EnvInt("VERIF_CONTEND_ROUNDS", 300) / 10
+		case "read-vs-append":
+			c.Rounds = 1 + c.Rounds/30
 		}
 		checkContend(t, c)
 	})
